@@ -31,7 +31,13 @@ def main(argv):
     return 64
   if replay:
     return mod.replay(replay)
-  return mod.run()
+  try:
+    return mod.run()
+  except Exception:  # noqa: BLE001
+    # a crash of the machinery is never a verdict about the code under test
+    import traceback
+    print('HARNESS-ERROR property=%s the check crashed:\n%s' % (prop, traceback.format_exc()[-3000:]))
+    return 3
 
 
 if __name__ == '__main__':
